@@ -45,6 +45,13 @@ Theorem getpath_of_path : forall ps v, GetpathLaws.good v ->
 Proof. exact GetpathLaws.getpath_of_path. Qed.
 Print Assumptions getpath_of_path.
 
+(** every JSON-like value (scalars, arrays, objects with pairwise different text keys) is such a value: for them the law
+    holds without any side condition *)
+Theorem getpath_of_path_json : forall ps v, GetpathLaws.json_like v ->
+  GetpathLaws.sforall (fun xp => GetpathLaws.getpath (rev (snd xp)) v = Ok (fst xp)) (path_paths ps (v, [])).
+Proof. exact GetpathLaws.getpath_of_path_json. Qed.
+Print Assumptions getpath_of_path_json.
+
 Example good_values_exist :
   GetpathLaws.good (Arr [vint 1%Z; Obj [(vstr [97%Z], Arr [Null; vint 2%Z]); (vint 5%Z, Bool true)]; TStr []]).
 Proof. exact GetpathLaws.good_ex. Qed.
